@@ -5,7 +5,7 @@
 From Coq Require Import String Ascii List ZArith Bool Lia Permutation.
 Require Import Blots.Num Blots.gen.Builtins Blots.Ast Blots.Value Blots.Outcome Blots.Binop
                Blots.Env Blots.Eval Blots.BuiltinsHof Blots.Program Blots.EvalInst Blots.EvalFull
-               Blots.BuiltinsList Blots.BuiltinsAgg
+               Blots.BuiltinsList Blots.BuiltinsAgg Blots.BuiltinsText Blots.NumText
                Blots.proofs.ValueInd Blots.proofs.StoreMono Blots.proofs.Closed Blots.proofs.ClosedOps
                Blots.proofs.SortLaws.
 Import ListNotations.
@@ -301,5 +301,46 @@ Section Pure.
     intros x Hx. apply in_map_iff in Hx. destruct Hx as [c [<- Hin]].
     apply closed_VList. eapply closed_incl; [exact Ha0|]. intros y Hy.
     unfold chunks in Hin. destruct (chunk_acc_in _ _ _ _ _ _ Hin Hy) as [Hl|[]]. exact Hl.
+  Qed.
+  (* ---- convert round to_number to_string join: a number or a string ---- *)
+  Lemma obind_ok : forall {A B} (m : outcome A) (f : A -> outcome B) v,
+    obind m f = Ok v -> exists a, m = Ok a /\ f a = Ok v.
+  Proof. intros A B m f v H. destruct m; try discriminate H. eexists; split; [reflexivity|exact H]. Qed.
+  Ltac ob H x := apply obind_ok in H; destruct H as [x [_ H]].
+
+  Lemma bi_convert_closed : forall args v, bi_convert args = Ok v -> closed_value st v.
+  Proof.
+    intros args v H. unfold bi_convert in H.
+    ob H a0. ob H x0. ob H a1. ob H x1. ob H a2. ob H x2.
+    revert H. generalize (Units.convert UnitsBase.fl x0 x1 x2). intros r H.
+    destruct r; [|discriminate H]. injection H as <-. exact I.
+  Qed.
+  Lemma bi_round_closed : forall args v, bi_round args = Ok v -> closed_value st v.
+  Proof.
+    intros args v H. unfold bi_round in H.
+    ob H a0. ob H x0.
+    destruct args as [|x [|y rest]].
+    - ob H a1. ob H x1. injection H as <-. exact I.
+    - injection H as <-. exact I.
+    - ob H a1. ob H x1. injection H as <-. exact I.
+  Qed.
+  Lemma bi_to_number_closed : forall args v, bi_to_number args = Ok v -> closed_value st v.
+  Proof.
+    intros args v H. unfold bi_to_number in H.
+    ob H a0.
+    destruct a0; try (injection H as <-; exact I);
+      (ob H s0; cbv beta in H; unfold parse_result in H;
+       destruct (NumText.ref_str_parse s0); [|discriminate H]; injection H as <-; exact I).
+  Qed.
+  Lemma bi_to_string_closed : forall args v, bi_to_string args = Ok v -> closed_value st v.
+  Proof.
+    intros args v H. unfold bi_to_string in H.
+    ob H a0.
+    destruct a0; try (injection H as <-; exact I); (ob H s0; injection H as <-; exact I).
+  Qed.
+  Lemma bi_join_full_closed : forall args v, bi_join_full args = Ok v -> closed_value st v.
+  Proof.
+    intros args v H. unfold bi_join_full in H.
+    ob H a1. ob H d. ob H a0. ob H l. ob H strs. injection H as <-. exact I.
   Qed.
 End Pure.
